@@ -356,6 +356,50 @@ Theorem c19_try_bit_flips_exact : forall a reg br ctx rs op,
 Proof. exact try_bit_flips_exact. Qed.
 Print Assumptions c19_try_bit_flips_exact.
 
+(* ================================================================ THE PROPERTY, clause by clause *)
+(* From the raw records of a dump with a MemoryInfoList (processor_architecture, platform_id, exception record, records
+   (base, size, protection) with any u64 values and any overlaps) and for an ARBITRARY instruction analysis:
+   - each reported flip differs in exactly one bit, inside the platform's range, from an examined value (the crash address,
+     the recovered non-canonical address, or a register the analysis named and the context can read) that is NOT itself
+     accessible; it is a u64, and it is 0 or lies inside a record whose protection permits the crashing kind of access;
+     its confidence lies between 0 and 1 (binary32);
+   - nothing is reported when the access was recognised as a null pointer plus offset;
+   - nothing is reported for 32-bit, ARM64 / ARM64_OLD and unknown architectures.
+   ("not accessible" is what the region lookup says; c19_record_accessible below: a value inside a record that intersects no
+   other record and permits the access is accessible — with overlapping records the lookup table drops entries, design/C19.md) *)
+Theorem c19_the_property : forall analysis arch platform_id e pc l,
+  u64_recs l ->
+  0 <= er_address e < two64 -> 0 <= er_info1 e < two64 ->
+  (forall x id v, pc = Some x -> get_register x id = Some v -> 0 <= v < two64) ->
+  (forall x oa ai, analysis x = Some oa -> (exists a, oa_addresses oa = Some a /\ In ai a) -> 0 <= ai_addr ai < two64) ->
+  let c := dump_cpu arch in
+  let os := os_class (dump_os platform_id) in
+  let r := dump_reason arch platform_id e in
+  let address := dump_address arch platform_id e in
+  let flips := dump_pipeline analysis arch platform_id e pc (regions_of_info l) in
+  (forall f, In f flips ->
+     exists a j, examined_by analysis c os r address pc f a /\
+                 inaccessible (regions_of_info l) (memop_of_reason r) a /\
+                 br_lo (pipeline_br analysis c os r address pc) <= j < br_hi (pipeline_br analysis c os r address pc) /\
+                 f_addr f = Z.lxor a (2 ^ j) /\ 0 <= f_addr f < two64 /\
+                 (f_addr f = 0 \/
+                  exists base size prot, In (base, size, prot) l /\ size <> 0 /\ base + size < two64 /\
+                                         base <= f_addr f < base + size /\ info_allows (memop_of_reason r) prot = true) /\
+                 le_b32 (f32 0) (confidence (f_det f)) = true /\ le_b32 (confidence (f_det f)) (f32 F32_ONE_bits) = true) /\
+  (forall x oa, pc = Some x -> analysis x = Some oa -> has_null_flag oa -> flips = []) /\
+  (~ (arch = 9 \/ arch = 32770 \/ arch = 32772) -> flips = []).
+Proof. exact the_property. Qed.
+Print Assumptions c19_the_property.
+
+Theorem c19_record_accessible : forall op l1 base size prot l2 a,
+  u64_recs (l1 ++ (base, size, prot) :: l2) ->
+  size <> 0 -> base + size < two64 -> base <= a < base + size ->
+  info_allows op prot = true ->
+  (forall b s p, In (b, s, p) (l1 ++ l2) -> s <> 0 -> b + s < two64 -> b + s <= base \/ base + size <= b) ->
+  ~ inaccessible (regions_of_info (l1 ++ (base, size, prot) :: l2)) op a.
+Proof. exact record_accessible. Qed.
+Print Assumptions c19_record_accessible.
+
 (* ---- non-vacuity ---- *)
 Example c19_nonvacuous_flip :
   let rs := [region_of_info 524288 8 0] in
